@@ -259,13 +259,22 @@ def run(ctx: Ctx):
                 if ctx.quick and (k + ver) % 3 and len(s) < 20:
                     continue
                 cases.append((ver, kind, s, k))
+    # every refusal status of the command's status family in turn (the rotation index selects it): a refused command raises at once,
+    # and what another operation's events do afterwards concerns nobody
+    for ver in ((8, 14) if ctx.quick else (4, 8, 13, 14)):
+        for kind, tail in (("scan", [("result", 11), ("complete", True), ("tick",), ("result", 12), ("complete", True)]),
+                           ("form", [("status", "up"), ("tick",)]), ("leave", [("status", "down"), ("tick",)])):
+            for rot in range(260 if ver >= 14 else 200):
+                if ctx.quick and kind != "scan" and rot % 4:
+                    continue
+                cases.append((ver, kind, [("start",), ("resp", "refuse")] + tail + [("end",)], rot))
     traces = pmap(run_case, cases, chunksize=16)
     ctx.evaluations = len(traces)
     ctx.distinct_nontrivial = len({str(c_) for c_ in cases})
     ctx.rule = ("for forming, leaving and bring-up: every ordered selection of {command response (ok / each refusal status in rotation / not-joined), matching "
                 "status event, non-matching status event, timeout expiry} with and without a matching event before the operation is issued, each ended by "
                 "timeout, cancellation or a further event; for scans: every order of {response, two results, completion} x response / completion status with "
-                "and without stale results from before the scan; five repeated operations; the listener and callback bookkeeping is compared after every "
+                "and without stale results from before the scan; every refusal status of the status family in turn followed by another operation's events; five repeated operations; the listener and callback bookkeeping is compared after every "
                 "operation; distinct = distinct (version, kind, script)")
     ctx.add_sample({"case": [cases[3][0], cases[3][1], cases[3][2]], "trace": traces[3]})
     ctx.validate_traces("Trace_EventOps", traces, constants=c, metas=[list(x) for x in cases], label="event ops", sig=sig)
